@@ -222,3 +222,32 @@ __CPROVER_assigns (gh_err_code)
 __CPROVER_ensures (0)                 /* does not return: control leaves through yaep_error */
 ;
 void h_errfunc (void) { void *p; GH (); VACUITY_CANARY (); error_func_for_allocate (p); }
+
+/* ---- D.unwind (C17 A.unwind for set_sgrammar): free_sgrammar releases exactly the containers of the intermediate form that exist,
+   once each, whatever the number created when the memory request failed ---- */
+int gh_nc; int gh_del0, gh_del1, gh_del2, gh_del3, gh_del4; void *gh_vs1, *gh_vs2;
+void os_delete_sg_c (os_t *os)
+__CPROVER_requires ((os == &stoks && gh_nc >= 1 && gh_del0 == 0) || (os == &srhs && gh_nc >= 4 && gh_del3 == 0) || (os == &strans && gh_nc >= 5 && gh_del4 == 0))
+__CPROVER_assigns (gh_del0, gh_del3, gh_del4)
+__CPROVER_ensures (gh_del0 == __CPROVER_old (gh_del0) + (os == &stoks) && gh_del3 == __CPROVER_old (gh_del3) + (os == &srhs) && gh_del4 == __CPROVER_old (gh_del4) + (os == &strans))
+;
+void vlo_free_sg_c (YaepAllocator *a, void *p)
+__CPROVER_requires ((p == gh_vs1 && gh_nc >= 2 && gh_del1 == 0) || (p == gh_vs2 && gh_nc >= 3 && gh_del2 == 0))
+__CPROVER_assigns (gh_del1, gh_del2)
+__CPROVER_ensures (gh_del1 == __CPROVER_old (gh_del1) + (p == gh_vs1) && gh_del2 == __CPROVER_old (gh_del2) + (p == gh_vs2))
+;
+void free_sgrammar_enf_c (void)
+__CPROVER_requires (gh_nc == n_sgrammar_containers && gh_nc >= 0 && gh_nc <= 5)
+__CPROVER_requires (gh_del0 == 0 && gh_del1 == 0 && gh_del2 == 0 && gh_del3 == 0 && gh_del4 == 0)
+__CPROVER_requires (gh_vs1 == (void *) sterms.vlo_start && gh_vs2 == (void *) srules.vlo_start && gh_vs1 != gh_vs2 && (gh_nc < 2 || gh_vs1 != NULL) && (gh_nc < 3 || gh_vs2 != NULL))
+__CPROVER_assigns (gh_del0, gh_del1, gh_del2, gh_del3, gh_del4, n_sgrammar_containers, sterms.vlo_start, srules.vlo_start)
+__CPROVER_ensures (gh_del0 == (gh_nc >= 1) && gh_del1 == (gh_nc >= 2) && gh_del2 == (gh_nc >= 3) && gh_del3 == (gh_nc >= 4) && gh_del4 == (gh_nc >= 5))
+__CPROVER_ensures (n_sgrammar_containers == 0)
+;
+void h_free_sgrammar (void)
+{
+  GH (); HAVOC (gh_nc); HAVOC (gh_del0); HAVOC (gh_del1); HAVOC (gh_del2); HAVOC (gh_del3); HAVOC (gh_del4); HAVOC (gh_vs1); HAVOC (gh_vs2);
+  HAVOC (n_sgrammar_containers); HAVOC (sterms.vlo_start); HAVOC (srules.vlo_start); HAVOC (sterms.vlo_alloc); HAVOC (srules.vlo_alloc);
+  free_sgrammar ();
+  if (gh_nc == 0) VACUITY_CANARY_N ("nothing created"); else if (gh_nc < 5) VACUITY_CANARY_N ("partly created"); else VACUITY_CANARY_N ("all created");
+}
